@@ -1,4 +1,5 @@
 import Juniper.Proofs.TreeAccessExample
+import Juniper.Proofs.FirstRace
 /-!
 # C01, last sentence — "Puts from several goroutines to distinct keys that are already present,
 concurrent with reads of other keys, are free of data races and all take effect" (property theorems)
@@ -284,5 +285,37 @@ theorem range_over_written_key_races :
     decide
   obtain ⟨c, hc, hrace⟩ := hrun
   exact ⟨c, reach_of_sched _ _ c hc, hasRace_sound hrace⟩
+
+/-! ## why a configuration-local `Race` is enough (audit C01R-F7) -/
+
+/-- **The first-race argument.** `Race` above is "two goroutines are *about to* perform conflicting accesses in one
+configuration". A data race in the sense of the Go memory model is any two conflicting accesses of different
+goroutines that are not ordered by happens-before — and without synchronisation none are, however many steps lie
+between them. This theorem closes the gap for every system of the shape the access model has (each step of a
+goroutine is one access, named by its private state; it reads at most the value at that location and changes at most
+that value: `FirstRace.Sys`): if no reachable configuration has such a pair of *next* accesses, then no run contains
+two conflicting accesses of different goroutines at all (`Indep` for every pair of events, at any distance). Proof:
+were `a` (goroutine `i`) … `b` (goroutine `j`) the first such pair of a run, dropping `i`'s steps from `a` on leaves a
+run (`FirstRace.frame`: the others never touched what `i` wrote, or an earlier pair would exist) that ends with `i`
+still about to do `a` and `j` about to do `b`. That `Model/BTreeAccess.next` / `accessOf` are of this shape is read
+off their clauses (comment at `Model.BTreeAccess.Race`) and is not proved here. -/
+theorem race_free_configurations_exclude_all_data_races {Loc Val P : Type} [DecidableEq Loc]
+    (S : Juniper.Proofs.FirstRace.Sys Loc Val P) (c0 : Juniper.Proofs.FirstRace.Config Loc Val P)
+    (hfree : ∀ σ c, Juniper.Proofs.FirstRace.run S c0 σ = some c → ¬ Juniper.Proofs.FirstRace.Race S c)
+    (σ : List Nat) (c : Juniper.Proofs.FirstRace.Config Loc Val P) (h : Juniper.Proofs.FirstRace.run S c0 σ = some c) :
+    (Juniper.Proofs.FirstRace.events S c0 σ).Pairwise Juniper.Proofs.FirstRace.Indep :=
+  Juniper.Proofs.FirstRace.no_conflicting_accesses_of_race_free c0 hfree σ c h
+
+/-- non-vacuity: a two-goroutine system over one location — goroutine 0 writes it once, goroutine 1 reads it once.
+Its initial configuration is a `Race`, and indeed the run `[0, 1]` contains the conflicting pair; with two readers
+instead there is no race and every run is conflict free. -/
+example :
+    let S : Juniper.Proofs.FirstRace.Sys Unit Nat Bool :=
+      { acc := fun p => if p then none else some ((), true), step := fun _ v => (true, v + 1) }
+    let c0 : Juniper.Proofs.FirstRace.Config Unit Nat Bool := { mem := fun _ => 0, pcs := fun _ => false }
+    Juniper.Proofs.FirstRace.Race S c0 ∧
+      Juniper.Proofs.FirstRace.events S c0 [0, 1] = [(0, ((), true)), (1, ((), true))] := by
+  refine ⟨⟨0, 1, ((), true), ((), true), by decide, rfl, rfl, rfl, Or.inl rfl⟩, ?_⟩
+  simp [Juniper.Proofs.FirstRace.events, Juniper.Proofs.FirstRace.stepAt]
 
 end Juniper.Props.C01Race
